@@ -4,6 +4,12 @@
      q.dec <max|-> <hex>       model: ok <fields> size=<n> | err decomp <variant> | err toolong <n>
      q.decc ...                same on the concatenation of the chunks
      q.ref <hex>               reference decoder only (used by lib/props/c11.py on the bytes the implementation wrote)
+     q.hpe <max> <b> <m> <k> <eic> <s> <delta>
+                               model: ok <hex of hp_encode eic s delta> parts=<hp_decode of those bytes>
+                               spec:  ok <* | !text> parts=<eic>,<s>,<delta>   (a star = the model bytes read by the RFC 7541 5.1
+                               integer decoder on an 8-bit and a 7-bit prefix are exactly (0, eic) (s, delta), nothing left);
+                               <max> <b> <m> <k> only steer the implementation (harness/src/bin/c11.rs)
+     q.hpref <hex>             the RFC reading of a section prefix: ok <eic>,<s>,<delta> | err
    spec column of q.dec:  <strict answer> [^limit] [~ <answer of the lax reading (known class F15b)>]
      ^limit = the strict answer needs an integer with more than 9 continuation octets (an implementation may refuse it) *)
 let fields_of_string s =
@@ -15,16 +21,26 @@ let string_of_fields fs =
   if fs = [] then "-" else
   String.concat "," (List.map (fun (n, v) -> hex_of_bytes n ^ ":" ^ hex_of_bytes v) fs)
 
-let err_s = function
-  | DInvalidInteger PiOverflow -> "decomp InvalidInteger overflow"
-  | DInvalidInteger PiUnexpectedEnd -> "decomp InvalidInteger end"
-  | DInvalidString _ -> "decomp InvalidString"
-  | DInvalidStaticIndex _ -> "decomp InvalidStaticIndex"
-  | DUnknownPrefix _ -> "decomp UnknownPrefix"
-  | DMissingRefs _ -> "decomp MissingRefs"
-  | DBadBaseIndex _ -> "decomp BadBaseIndex"
-  | DHeaderTooLong n -> "toolong " ^ string_of_n n
-  | DOutOfFuel -> "outoffuel"
+let variant_s = function
+  | DInvalidInteger PiOverflow -> "InvalidInteger overflow"
+  | DInvalidInteger PiUnexpectedEnd -> "InvalidInteger end"
+  | DInvalidString _ -> "InvalidString"
+  | DInvalidStaticIndex _ -> "InvalidStaticIndex"
+  | DUnknownPrefix _ -> "UnknownPrefix"
+  | DMissingRefs _ -> "MissingRefs"
+  | DBadBaseIndex _ -> "BadBaseIndex"
+  | DHeaderTooLong n -> "HeaderTooLong " ^ string_of_n n
+  | DOutOfFuel -> "OutOfFuel"
+
+(* the class word (`decomp` = the call sites attach QPACK_DECOMPRESSION_FAILED, `toolong` = they do not) is taken from the
+   MODEL's classification `decompression_failed`, not from the constructor: the implementation column gets it from the
+   same `Err(HeaderTooLong(_)) / Err(_)` split the three call sites make *)
+let err_s e =
+  if decompression_failed e then "decomp " ^ variant_s e
+  else match e with
+    | DHeaderTooLong n -> "toolong " ^ string_of_n n
+    | DOutOfFuel -> "outoffuel"
+    | _ -> "notdecomp " ^ variant_s e
 
 let max_of s = if s = "-" then None else Some (n_of_string s)
 
@@ -100,6 +116,32 @@ let handle ws = match ws with
   | ["q.decc"; max; h] ->
     let bs = List.concat (List.map bytes_of_hex (String.split_on_char '.' h)) in
     m_dec (max_of max) bs ^ " | " ^ s_dec (max_of max) bs
+  | ["q.hpe"; _; _; _; _; eic; sg; delta] ->
+    let eic = n_of_string eic and delta = n_of_string delta in
+    let want = Printf.sprintf "parts=%s,%s,%s" (string_of_n eic) sg (string_of_n delta) in
+    (match hp_encode eic (sg = "1") delta with
+     | Ok bs ->
+       let parts = match hp_decode bs with
+         | Ok (((e, s), d), []) -> Printf.sprintf "parts=%s,%d,%s" (string_of_n e) (if s then 1 else 0) (string_of_n d)
+         | Ok _ -> "parts=!octets-left"
+         | Err e -> "parts=!err-" ^ err_s e
+         | Panic _ -> "parts=!panic" in
+       let chk = match rfc_pi_decode (n_of_int 8) bs with
+         | Some ((f, e), r) ->
+           (match rfc_pi_decode (n_of_int 7) r with
+            | Some ((s, d), []) when f = N0 && e = eic && string_of_n s = sg && d = delta -> "*"
+            | _ -> "!reference-reading-of-the-model-bytes-differs")
+         | None -> "!reference-reading-of-the-model-bytes-differs" in
+       Printf.sprintf "ok %s %s | ok %s %s" (hex_of_bytes bs) parts chk want
+     | Err _ -> "err | ok * " ^ want
+     | Panic _ -> "panic | ok * " ^ want)
+  | ["q.hpref"; h] ->
+    (match rfc_pi_decode (n_of_int 8) (bytes_of_hex h) with
+     | Some ((f, e), r) when f = N0 ->
+       (match rfc_pi_decode (n_of_int 7) r with
+        | Some ((s, d), []) -> Printf.sprintf "ok %s,%s,%s" (string_of_n e) (string_of_n s) (string_of_n d)
+        | _ -> "err")
+     | _ -> "err")
   | ["q.ref"; h] ->
     (match rfc_decode_static (bytes_of_hex h) with
      | Some fs -> "ok " ^ string_of_fields fs
